@@ -1,5 +1,6 @@
 SPECIFICATION TraceSpec
-CONSTANTS MaxSecs = 100000 MaxOpts = 100000 MaxMem = 100000 MaxTop = 100000 Mode = "trace"
+CONSTANTS MaxSecs = 100000 MaxOpts = 100000 MaxMem = 100000 MaxTop = 100000 MaxDocs = 100000 MaxSteps = 100000 Mode = "trace"
 INVARIANTS Refines Contained BindsNamed CopiesEqual
+PROPERTIES RefusedFrame BindExact GSetFrame FreshDoc
 POSTCONDITION TraceAccepted
 CHECK_DEADLOCK FALSE
